@@ -3,8 +3,7 @@ import glob, os, sys
 sys.path.insert(0, os.path.dirname(os.path.abspath(__file__)))
 import core
 def main():
-    gen = os.path.join(core.ROOT, "harness", "gen_tables.py")
-    if os.path.exists(gen):
+    for gen in sorted(glob.glob(os.path.join(core.ROOT, "harness", "gen_*.py"))):
         r = core.sh([core.PY, gen], env={"PYTHONPATH": core.REPO, "PYTHONHASHSEED": "0"})
         sys.stdout.write(r.stdout + r.stderr)
         if r.returncode != 0:
